@@ -110,3 +110,11 @@ Proof.
   destruct (vt_consts _ Hv) as (Hmin & _). lia.
 Qed.
 Print Assumptions C08_follower_inside.
+
+(** ... and that bound is the source's: the cluster numbers [get_cluster_chain] refuses (regenerated on every run) are exactly those
+    outside the model follower's view of the table *)
+From PyFatV Require Import Proofs.GenChain.
+Theorem C08_follower_bound_from_source : forall s i,
+  Gen.chain_refuse (s_p s) (s_h s) (ft s) (lenZ (s_fat s)) i = (i <? Gen.MIN_DATA_CLUSTER (ft s)) || (lenZ (vfat s) <=? i).
+Proof. exact gen_refuse. Qed.
+Print Assumptions C08_follower_bound_from_source.
